@@ -25,7 +25,11 @@ type item struct {
 }
 
 type op struct {
-	Op   string `json:"op"`
+	Op    string `json:"op"`
+	Items []struct {
+		P int    `json:"p"`
+		T string `json:"t"`
+	} `json:"items,omitempty"`
 	Kind string `json:"kind,omitempty"`
 	Q    int    `json:"q,omitempty"`
 	P    int    `json:"p,omitempty"`
@@ -43,15 +47,16 @@ type hist struct {
 }
 
 type event struct {
-	Ev   string          `json:"ev"`
-	Hid  int             `json:"hid"`
-	I    int             `json:"i"`
-	Kind string          `json:"kind,omitempty"`
-	Q    int             `json:"q,omitempty"`
-	P    int             `json:"p"`
-	T    string          `json:"t"`
-	Msg  string          `json:"msg,omitempty"`
-	Qs   [][]interface{} `json:"qs"`
+	Ev    string          `json:"ev"`
+	Hid   int             `json:"hid"`
+	I     int             `json:"i"`
+	Kind  string          `json:"kind,omitempty"`
+	Q     int             `json:"q,omitempty"`
+	P     int             `json:"p"`
+	T     string          `json:"t"`
+	Msg   string          `json:"msg,omitempty"`
+	Items [][]interface{} `json:"items,omitempty"`
+	Qs    [][]interface{} `json:"qs"`
 }
 
 type runner struct {
@@ -88,10 +93,16 @@ func (r *runner) exec(o op, hid, i int) (ev event) {
 	}()
 	switch o.Op {
 	case "new":
+		var its []*utils.PriorityQueueItem
+		ev.Items = [][]interface{}{}
+		for _, it := range o.Items {
+			its = append(its, utils.NewPriorityQueueItem(float32(it.P), item{it.P, it.T}))
+			ev.Items = append(ev.Items, []interface{}{it.P, it.T})
+		}
 		if o.Kind == "min" {
-			r.qs = []utils.PriorityQueue{utils.NewMinPriorityQueue()}
+			r.qs = []utils.PriorityQueue{utils.NewMinPriorityQueue(its...)}
 		} else {
-			r.qs = []utils.PriorityQueue{utils.NewMaxPriorityQueue()}
+			r.qs = []utils.PriorityQueue{utils.NewMaxPriorityQueue(its...)}
 		}
 		r.kinds = []string{o.Kind}
 		ev.Kind = o.Kind
@@ -203,8 +214,19 @@ func random(n, maxlen int, seed int64, out string) {
 		if rng.Intn(2) == 0 {
 			kind = "max"
 		}
-		enc.Encode(r.exec(op{Op: "new", Kind: kind}, hid, 0))
+		first := op{Op: "new", Kind: kind}
 		held := []map[item]bool{{}}
+		for k := rng.Intn(4); k > 0; k-- {
+			it := item{1 + rng.Intn(5), tags[rng.Intn(len(tags))]}
+			if !held[0][it] {
+				held[0][it] = true
+				first.Items = append(first.Items, struct {
+					P int    `json:"p"`
+					T string `json:"t"`
+				}{it.P, it.T})
+			}
+		}
+		enc.Encode(r.exec(first, hid, 0))
 		nprio := 1 + rng.Intn(6)
 		ln := 1 + rng.Intn(maxlen)
 		for i := 1; i <= ln; i++ {
